@@ -155,14 +155,16 @@ def apply_op(pool, op):
         raise RuntimeError(f"unknown op {k}")
 
 
-def run_impl(prog, on_step=None):
-    """Returns [outcomes, world snapshot]. on_step(pool, op, outcome, before) for oracles."""
+def run_impl(prog, on_step=None, want=None):
+    """Returns [outcomes, world snapshot]. on_step(pool, op, outcome, before) for oracles;
+    want(op) -> iterable of circuit ids to snapshot before the call (default: all)."""
     pool = {}
     outcomes = []
     for op in prog:
         before = None
         if on_step is not None:
-            before = {cid: snapshot(c) for cid, c in pool.items()}
+            ids = list(pool) if want is None else [i for i in want(op) if i in pool]
+            before = {cid: snapshot(pool[cid]) for cid in ids}
         try:
             apply_op(pool, op)
             out = {"ok": []}
@@ -313,3 +315,87 @@ def gen_primitive(rng, cid, nvis, bad=0.0, loss_p=0.3, kinds=None):
             vs[0] = (vs[0] + 1) % (nvis + 1)
         return ["swaps", cid, [[a, b] for a, b in zip(ks, vs)]]
     return ["ps", cid, gen_mode(rng, nvis, bad), rng.randrange(len(PHV)), gen_value_loss(rng, loss_p, bad)]
+
+
+# ---------------------------------------------------------------- trees of circuits
+def gen_tree_program(rng, tier, bad=0.0, loss_p=0.25, max_leaves=4):
+    """Leaves with heralds (any declaration order, in != out modes), parents with
+    primitives, additions in any order (grouped or not), nesting up to depth 3,
+    primitives after additions (mode numbering skips ancillas)."""
+    prog = []
+    nid = 0
+    vis = {}      # user-visible mode count (= n at creation)
+    opn = {}      # non-heralded modes seen by a parent = vis - #external heralds
+    depth = {}
+    big = tier != "quick"
+
+    def new_circuit(n, d):
+        nonlocal nid
+        cid = nid
+        nid += 1
+        prog.append(["new", cid, n])
+        vis[cid], opn[cid], depth[cid] = n, n, d
+        return cid
+
+    def prims(cid, k):
+        for _ in range(k):
+            prog.append(gen_primitive(rng, cid, vis[cid], bad=bad, loss_p=loss_p))
+
+    def heralds(cid, k):
+        n = vis[cid]
+        k = min(k, n - 1)
+        if k <= 0:
+            return
+        ins = rng.sample(range(n), k)
+        outs = list(ins) if rng.random() < 0.5 else rng.sample(range(n), k)
+        for i, o in zip(ins, outs):
+            prog.append(["herald", cid, rng.choice([0, 0, 1, 1, 2]), i, None if (i == o and rng.random() < 0.5) else o])
+        if rng.random() < bad:
+            prog.append(["herald", cid, 1, ins[0], None])     # duplicate
+        opn[cid] -= k
+
+    leaves = []
+    for _ in range(rng.randint(1, max_leaves)):
+        if rng.random() < 0.2:
+            k = rng.randint(1, 3)
+            cid = nid
+            nid += 1
+            prog.append(["unitary", cid, k, rational_unitary(rng, k)])
+            vis[cid], opn[cid], depth[cid] = k, k, 0
+            if rng.random() < 0.3:
+                heralds(cid, 1)
+        else:
+            cid = new_circuit(rng.randint(1, 5 if big else 4), 0)
+            prims(cid, rng.randint(0, 4))
+            heralds(cid, rng.choice([0, 1, 1, 2, 2, 3]))
+            if rng.random() < 0.3:
+                prims(cid, rng.randint(1, 2))
+        leaves.append(cid)
+    pool = list(leaves)
+    for level in range(rng.randint(1, 3 if big else 2)):
+        parent = new_circuit(rng.randint(2, 7 if big else 5), level + 1)
+        prims(parent, rng.randint(0, 3))
+        for _ in range(rng.randint(1, 4)):
+            sub = rng.choice(pool)
+            k = opn[sub]
+            if rng.random() < bad:
+                mode = rng.randint(-1, vis[parent] + 1)
+            elif vis[parent] - k < 0:
+                mode = 0
+            else:
+                mode = rng.randint(0, max(0, vis[parent] - k))
+            prog.append(["add", parent, sub, mode, rng.random() < 0.4])
+            if rng.random() < 0.6:
+                prims(parent, rng.randint(1, 2))
+        if rng.random() < 0.4:
+            heralds(parent, rng.choice([1, 1, 2]))
+        r = rng.random()
+        if r < 0.1:
+            prog.append(["copy", nid, parent])
+            vis[nid], opn[nid], depth[nid] = vis[parent], opn[parent], depth[parent]
+            pool.append(nid)
+            nid += 1
+        elif r < 0.2:
+            prog.append(["unpack", parent])
+        pool.append(parent)
+    return prog
